@@ -138,7 +138,11 @@ def get_type_graph(t: type) -> graphlib.TopologicalSorter[TypeNode]:
             # We detected a cyclic type,
             #   wrap in a ForwardRef and don't add it to the stack
             #   This will terminate this edge to prevent infinite cycles.
-            if is_visited and can_be_cyclic:
+            if is_visited and can_be_cyclic and typing.get_args(unwrapped):
+                # A parameterized generic can't be referenced by name without
+                #   losing its parameters: defer the type itself.
+                node = TypeNode(child, unwrapped, var=var, cyclic=True)
+            elif is_visited and can_be_cyclic:
                 qualname = inspection.qualname(child)
                 *rest, refname = qualname.split(".", maxsplit=1)
                 is_argument = var is not None
@@ -178,8 +182,10 @@ class TypeNode:
     """The unwrapped type annotation for this node."""
     var: str | None = None
     """The variable or parameter name associated to the type annotation for this node."""
-    cyclic: bool = dataclasses.field(default=False, hash=False, compare=False)
-    """Whether this type annotation is cyclic."""
+    cyclic: bool = False
+    """Whether this type annotation is cyclic.
+
+    A cyclic node is a distinct node from the (single) full node of the same type."""
 
     def __post_init__(self):
         if self.unwrapped is None:
